@@ -30,11 +30,13 @@ def _resolve_forward_references() -> None:
             def _filter(p: Tuple[str, object]) -> bool:
                 return isinstance(p[1], type) and attrs.has(p[1])
 
-            # Creating a concrete list here because `resolve_types` mutates the provided map.
+            # Resolving against a copy: evaluating an annotation adds `__builtins__`
+            # to the namespace it is given, and the registry holds types only.
+            namespace = dict(lsp_types.ALL_TYPES_MAP)
             items = list(filter(_filter, lsp_types.ALL_TYPES_MAP.items()))
             for _, value in items:
                 if isinstance(value, type):
-                    attrs.resolve_types(value, lsp_types.ALL_TYPES_MAP, {})
+                    attrs.resolve_types(value, namespace, {})
             _resolved_forward_references = True
 
 
